@@ -22,7 +22,8 @@ pub struct C11;
 #[derive(Debug, Clone, Copy, PartialEq, Eq)]
 pub struct Fe {
     /// 0: io::Read + read/next, 1: io::Read + read_nb/next_nb, 2: embedded-hal reader + read_nb/next_nb,
-    /// 3: embedded-hal reader through SmlReader::from_eh_reader (default buffer)
+    /// 3: embedded-hal reader through SmlReader::from_eh_reader (default buffer), 4: embedded-hal reader polled
+    /// through the blocking API read / next (a would-block then surfaces as IoErr(nb::Error::WouldBlock, 0))
     pub api: u8,
     pub poll_next: bool,
     /// None: growable buffer; Some(n): ArrayBuf<n>
@@ -97,6 +98,16 @@ fn conv_nb_io(r: nb::Result<&[u8], ReadDecodedError<std::io::Error>>) -> Ev {
     }
 }
 
+/// Blocking API over the embedded-hal source: the source's would-block is an I/O error of its own kind.
+fn conv_blocking_eh(r: Result<&[u8], ReadDecodedError<nb::Error<u8>>>) -> Ev {
+    match r {
+        Ok(m) => Ev::Msg(m.to_vec()),
+        Err(ReadDecodedError::DecodeErr(e)) => Ev::Err(e),
+        Err(ReadDecodedError::IoErr(nb::Error::WouldBlock, n)) => Ev::IoWouldBlock(n),
+        Err(ReadDecodedError::IoErr(nb::Error::Other(k), n)) => Ev::IoOther(drive::other_kind_name(k), n),
+    }
+}
+
 fn conv_nb_eh(r: nb::Result<&[u8], ReadDecodedError<nb::Error<u8>>>) -> Ev {
     match r {
         Ok(m) => Ev::Msg(m.to_vec()),
@@ -168,14 +179,18 @@ fn run_fe<K: BufKind>(fe: Fe, script: &[Step]) -> Result<Vec<(usize, Ev)>, Strin
                         if calls > cap {
                             return Err(format!("reader produced more than {} results", cap));
                         }
-                        let ev = if fe.poll_next {
-                            match reader.next_nb::<DecodedBytes>() {
+                        let ev = match (fe.api == 4, fe.poll_next) {
+                            (false, true) => match reader.next_nb::<DecodedBytes>() {
                                 Ok(None) => Ev::End,
                                 Ok(Some(m)) => Ev::Msg(m.to_vec()),
                                 Err(e) => conv_nb_eh(Err(e)),
-                            }
-                        } else {
-                            conv_nb_eh(reader.read_nb::<DecodedBytes>())
+                            },
+                            (false, false) => conv_nb_eh(reader.read_nb::<DecodedBytes>()),
+                            (true, true) => match reader.next::<DecodedBytes>() {
+                                None => Ev::End,
+                                Some(r) => conv_blocking_eh(r),
+                            },
+                            (true, false) => conv_blocking_eh(reader.read::<DecodedBytes>()),
                         };
                         if beyond.get() {
                             // the call ran past the end of the script: its would-block is the harness's, not a scripted one
@@ -220,12 +235,12 @@ fn fe_name(fe: Fe) -> String {
         fe.cap.map(|c| format!("ArrayBuf<{c}>")).unwrap_or_else(|| "Vec".into()),
         match fe.api {
             0 | 1 => "from_reader",
-            2 => "from_eh_reader",
+            2 | 4 => "from_eh_reader",
             _ => "from_eh_reader(default buffer)",
         },
         match (fe.api, fe.poll_next) {
-            (0, true) => "next",
-            (0, false) => "read",
+            (0, true) | (4, true) => "next",
+            (0, false) | (4, false) => "read",
             (_, true) => "next_nb",
             (_, false) => "read_nb",
         }
@@ -374,7 +389,8 @@ pub fn eval_input(i: &Input, obs: &mut Obs) -> Result<(), Fail> {
         0 => "io-blocking",
         1 => "io-nb",
         2 => "eh-nb",
-        _ => "eh-nb-default-buffer",
+        3 => "eh-nb-default-buffer",
+        _ => "eh-blocking",
     }));
     obs.nontrivial_if(inside);
     Ok(())
@@ -456,7 +472,7 @@ pub fn phase_of(stream: &[u8], p: usize) -> &'static str {
 
 impl Prop for C11 {
     const ID: &'static str = "C11";
-    const RULE: &'static str = "streams of valid frames, noise and broken frames (G2 tokens) x fault scripts (G6: finite sequences of WouldBlock / Interrupted / Other(kind) at arbitrary inter-byte positions, with a forced fault strictly inside a frame in most cases) through SmlReader::from_reader (read, next, read_nb, next_nb) and from_eh_reader (read_nb, next_nb) with Vec or ArrayBuf buffers; every single-fault placement on small streams is enumerated. Oracle (metamorphic, against the same front-end without the faults, plus the tiling accountant R4): (1) dropping the WouldBlock results gives exactly the fault-free results, every scripted WouldBlock surfaces exactly once with count 0 (as nb::Error::WouldBlock in the _nb API), Interrupted never surfaces; (2) an Other error after p delivered bytes: results = results of a reader whose input ends at p, with its final IoErr(Eof,n)/None replaced by IoErr(Other,n), followed by the results of a fresh reader on the remaining script; n is also checked by R4; (3) at the end of input nothing is unaccounted, and the end keeps being reported on further calls. Non-trivial: at least one fault strictly inside a frame (phase derived from the reference frame structure). Distinct = distinct inputs.";
+    const RULE: &'static str = "streams of valid frames, noise and broken frames (G2 tokens) x fault scripts (G6: finite sequences of WouldBlock / Interrupted / Other(kind) at arbitrary inter-byte positions, with a forced fault strictly inside a frame in most cases) through SmlReader::from_reader (read, next, read_nb, next_nb) and from_eh_reader (read_nb, next_nb, and the blocking read / next, where the source's would-block is an I/O error of kind would-block) with Vec or ArrayBuf buffers; every single-fault placement on small streams is enumerated. Oracle (metamorphic, against the same front-end without the faults, plus the tiling accountant R4): (1) dropping the WouldBlock results gives exactly the fault-free results, every scripted WouldBlock surfaces exactly once with count 0 (as nb::Error::WouldBlock in the _nb API), Interrupted never surfaces; (2) an Other error after p delivered bytes: results = results of a reader whose input ends at p, with its final IoErr(Eof,n)/None replaced by IoErr(Other,n), followed by the results of a fresh reader on the remaining script; n is also checked by R4; (3) at the end of input nothing is unaccounted, and the end keeps being reported on further calls. Non-trivial: at least one fault strictly inside a frame (phase derived from the reference frame structure). Distinct = distinct inputs.";
     type Case = Case;
     type Input = Input;
 
@@ -471,7 +487,7 @@ impl Prop for C11 {
             a
         });
         let inside = prop::option::weighted(0.8, (any::<u16>(), prop_oneof![3 => Just(Step::WouldBlock), 1 => Just(Step::Interrupted), 3 => (0u8..6).prop_map(Step::Other)]));
-        (toks, fault_specs(4, 3), 0u8..4, any::<bool>(), prop::option::weighted(0.4, any::<u16>()), inside)
+        (toks, fault_specs(4, 3), 0u8..5, any::<bool>(), prop::option::weighted(0.4, any::<u16>()), inside)
             .prop_map(|(toks, faults, api, poll_next, cap, inside)| Case { toks, faults, api, poll_next, cap, inside })
             .boxed()
     }
@@ -521,7 +537,7 @@ impl Prop for C11 {
             }
         }
         let api = kv.get_u("api")? as u8;
-        if api > 3 {
+        if api > 4 {
             return Err("api out of range".into());
         }
         Ok(Input { stream: kv.get_b("stream")?, faults: faults_from_kv(kv)?, fe: Fe { api, poll_next: kv.get_u("poll_next")? != 0, cap } })
@@ -557,7 +573,7 @@ impl Prop for C11 {
         for s in &streams {
             for p in 0..=s.len() {
                 for step in [Step::WouldBlock, Step::Interrupted, Step::Other(1)] {
-                    for (api, poll_next, cap) in [(0u8, true, None), (0, false, Some(64usize)), (1, true, None), (1, false, None), (2, true, Some(64)), (2, false, None), (3, true, None)] {
+                    for (api, poll_next, cap) in [(0u8, true, None), (0, false, Some(64usize)), (1, true, None), (1, false, None), (2, true, Some(64)), (2, false, None), (3, true, None), (4, true, None), (4, false, Some(64))] {
                         if g % nshards == shard && !f(&Input { stream: s.clone(), faults: vec![(p, step)], fe: Fe { api, poll_next, cap } }) {
                             return;
                         }
